@@ -8,9 +8,13 @@ def build(repo, tier, seed):
     v2, s2, u2 = effects_c16.computation(repo)
     v3, s3, u3 = effects_c16.logged(repo)
     t_syn, t_und = dataset_tower.tower_obligations(repo)
+    from . import chained_effect
+    v4, u4 = chained_effect.build(repo)
+    v2 = v2 + v4
+    u2 = u2 + u4
     syn = syn + s2 + s3 + effects_c16.disabled_contexts(repo) + effects_c16.nocache(repo) + t_syn
     fns, hashes = fn_hashes(repo, ["labrea.cache:Cached.evaluate", "labrea.cache:_cache_disabled", "labrea.cache:_set_cache_handler", "labrea.cache:_get_cache_handler",
-                                   "labrea.cache:_exists_cache_handler", "labrea.cache:disabled", "labrea.computation:Computation.evaluate",
+                                   "labrea.cache:_exists_cache_handler", "labrea.cache:disabled", "labrea.computation:Computation.evaluate", "labrea.computation:ChainedEffect.validate", "labrea.computation:ChainedEffect.transform", "labrea.computation:ChainedEffect.explain",
                                    "labrea.logging:Logged.evaluate", "labrea.logging:_builtin_logging_handler", "labrea.logging:disabled", "labrea.dataset:Dataset._composed"])
     import hashlib
     hashes["labrea/*.py"] = hashlib.sha256("".join(m.source for _, m in sorted(repo.modules.items())).encode()).hexdigest()[:16]
